@@ -142,8 +142,8 @@ func (g *Message) Parse(bt []byte) error {
 	switch bt[3] {
 	case 0x06:
 		g.IsResponse = false
-		if len(bt) < 7 {
-			return fmt.Errorf("wrong length for command: %v (must be >= 7)", len(bt))
+		if len(bt) < 6 {
+			return fmt.Errorf("wrong length for command: %v (must be >= 6)", len(bt))
 		}
 		g.Command = Command(bt[4])
 		if bt[4] >= 0x40 {
